@@ -85,12 +85,38 @@ func mapProjectionToTypes(prj *dynamodb.Projection) *types.Projection {
 		return nil
 	}
 
+	// the projection is kept by the table: it must not share its strings with the request
 	projection := &types.Projection{
-		NonKeyAttributes: prj.NonKeyAttributes,
-		ProjectionType:   prj.ProjectionType,
+		NonKeyAttributes: copyStrings(prj.NonKeyAttributes),
+		ProjectionType:   copyString(prj.ProjectionType),
 	}
 
 	return projection
+}
+
+func mapProjectionToDynamodb(prj *types.Projection) *dynamodb.Projection {
+	if prj == nil {
+		return nil
+	}
+
+	// a description belongs to the caller: it must not share its strings with the table
+	return &dynamodb.Projection{
+		NonKeyAttributes: copyStrings(prj.NonKeyAttributes),
+		ProjectionType:   copyString(prj.ProjectionType),
+	}
+}
+
+func copyStrings(in []*string) []*string {
+	if in == nil {
+		return nil
+	}
+
+	out := make([]*string, len(in))
+	for i, s := range in {
+		out[i] = copyString(s)
+	}
+
+	return out
 }
 
 func mapProvisionedThroughputToTypes(pt *dynamodb.ProvisionedThroughput) *types.ProvisionedThroughput {
@@ -127,13 +153,10 @@ func mapGlobalSecondaryIndexDescriptionToDynamodb(input []types.GlobalSecondaryI
 	gsi := make([]*dynamodb.GlobalSecondaryIndexDescription, len(input))
 	for i, gs := range input {
 		gsi[i] = &dynamodb.GlobalSecondaryIndexDescription{
-			IndexName: gs.IndexName,
-			ItemCount: aws.Int64(gs.ItemCount),
-			Projection: &dynamodb.Projection{
-				NonKeyAttributes: gs.Projection.NonKeyAttributes,
-				ProjectionType:   gs.Projection.ProjectionType,
-			},
-			KeySchema: mapKeySchemaToDynamodb(gs.KeySchema),
+			IndexName:  gs.IndexName,
+			ItemCount:  aws.Int64(gs.ItemCount),
+			Projection: mapProjectionToDynamodb(gs.Projection),
+			KeySchema:  mapKeySchemaToDynamodb(gs.KeySchema),
 		}
 	}
 
@@ -144,13 +167,10 @@ func mapLocalSecondaryIndexDescriptionToDynamodb(input []types.LocalSecondaryInd
 	lsi := make([]*dynamodb.LocalSecondaryIndexDescription, len(input))
 	for i, si := range input {
 		lsi[i] = &dynamodb.LocalSecondaryIndexDescription{
-			IndexName: si.IndexName,
-			ItemCount: aws.Int64(si.ItemCount),
-			Projection: &dynamodb.Projection{
-				NonKeyAttributes: si.Projection.NonKeyAttributes,
-				ProjectionType:   si.Projection.ProjectionType,
-			},
-			KeySchema: mapKeySchemaToDynamodb(si.KeySchema),
+			IndexName:  si.IndexName,
+			ItemCount:  aws.Int64(si.ItemCount),
+			Projection: mapProjectionToDynamodb(si.Projection),
+			KeySchema:  mapKeySchemaToDynamodb(si.KeySchema),
 		}
 	}
 
